@@ -103,6 +103,8 @@ def get_callable(qual):
 
 def check_one(c, args, fn=None):
     """run the real function of contract c on concrete args (dict name -> value); returns list of violations"""
+    if hasattr(c, "check_concrete"):
+        return c.check_concrete(args, fn)
     fn = fn or get_callable(c.qual)
     env = {k: real(v) for k, v in args.items()}
     for r in c.requires_:
@@ -160,7 +162,7 @@ def check_one(c, args, fn=None):
 
 def sweep(c, domain, budget_s=None, stop_at_first=False, want=None):
     """domain: iterable of arg dicts.  returns (n_run, n_distinct, violations{obligation -> (args, observed)}, samples)"""
-    fn = get_callable(c.qual)
+    fn = None if hasattr(c, "check_concrete") else get_callable(c.qual)
     t0 = time.time()
     n = 0
     found = {}
@@ -226,6 +228,8 @@ def replay_real(qual, pos_args, python=loader.REPLAY_PY):
 
 
 def positional(c, args):
+    if hasattr(c, "positional"):
+        return c.positional(args)
     mod, q, node = loader.find_function(c.qual)
     a = node.args
     pos = []
